@@ -203,3 +203,31 @@ func (m *Map) Range(f func(k, v any) bool) {
 		}
 	}
 }
+
+// ---- the rest of sync.Map's methods and the Once helpers (so that code using them still builds) ----
+
+func (m *Map) Swap(k, v any) (any, bool) {
+	vsched.Point("Map.Swap")
+	prev, loaded := m.m.Swap(k, v)
+	m.note(k, loaded)
+	return prev, loaded
+}
+func (m *Map) CompareAndSwap(k, old, new any) bool {
+	vsched.Point("Map.CompareAndSwap")
+	return m.m.CompareAndSwap(k, old, new)
+}
+func (m *Map) CompareAndDelete(k, old any) bool {
+	vsched.Point("Map.CompareAndDelete")
+	return m.m.CompareAndDelete(k, old)
+}
+func (m *Map) Clear() {
+	vsched.Point("Map.Clear")
+	m.m.Clear()
+	m.mu.Lock()
+	m.order = nil
+	m.mu.Unlock()
+}
+
+func OnceFunc(f func()) func()                                 { return sync.OnceFunc(f) }
+func OnceValue[T any](f func() T) func() T                     { return sync.OnceValue(f) }
+func OnceValues[T1, T2 any](f func() (T1, T2)) func() (T1, T2) { return sync.OnceValues(f) }
